@@ -418,6 +418,7 @@ class ExprMixin:
         c = self.choose(2, f'{x.name}=={const!r}')
         r = c in (0, None)
         if c is None:
+            self.fact('sym-eq-nofork', None, sym=x, const=const, node=node)
             return True
         if r:
             self.binds[x.name] = const
